@@ -68,6 +68,20 @@ Theorem C15_uuid_dropped_fallback_refuted :
 Proof. exact ugen_shadow_refuted. Qed.
 Print Assumptions C15_uuid_dropped_fallback_refuted.
 
+(* the node-id lease: with the heartbeat period and the lease lifetime regenerated from the code (side condition
+   heartbeat_within_lease) the slot marker of a living holder is in the store at every second, for ever — so the uniqueness
+   theorem above (which needs held ids to stay marked) applies to node ids for the whole life of the node ... *)
+Theorem C15_node_lease_never_lapses :
+  forall n : nat, marker_live NodeLockTTLSeconds (lease true NodeHeartbeatSeconds n) = true.
+Proof. intros n. exact (lease_never_lapses NodeHeartbeatSeconds NodeLockTTLSeconds n (proj1 heartbeat_within_lease) (proj2 heartbeat_within_lease)). Qed.
+Print Assumptions C15_node_lease_never_lapses.
+
+(* ... whereas a holder whose heartbeat does not run loses its slot after one lease lifetime *)
+Theorem C15_node_lease_without_heartbeat_refuted :
+  marker_live NodeLockTTLSeconds (lease false 30 NodeLockTTLSeconds) = false.
+Proof. exact (lease_without_heartbeat_lapses NodeLockTTLSeconds). Qed.
+Print Assumptions C15_node_lease_without_heartbeat_refuted.
+
 (* non-vacuity: concrete callers satisfy the hypothesis *)
 Theorem C15_premises_satisfiable :
   forall g, In g [init_gen 100 [OpGen; OpRel; OpGen] [5;5;6]%N []; init_gen 100 [OpGen] [5;6]%N [true]] -> held g = [].
